@@ -5,7 +5,8 @@
     leave_Call/leave_Assign/leave_ClassDef of LibcstResultTransformer with report_change, FileContext.get_findings_for_location,
     BaseCodemod._process_file (findings per rule, short circuit), RemediationCodemod.get_files_to_analyze and the
     rule-id truncation of the internal semgrep run.  Definitions only; as written. *)
-From CM Require Export Base.Dict Base.Types_Location.
+From CM Require Export Base.Dict Base.Types_Location Base.Types_Glob.
+From CM Require Model.LineFilter.
 Local Open Scope Z_scope.
 
 (** libcst CodePosition / CodeRange: 1-based line, 0-based column, end exclusive. *)
@@ -33,7 +34,8 @@ Record result := mkresult { rident : N; rcls : rclass; rrule_id : str; rlocs : l
 Record ltab := mkltab {
   tol_s : list Z;          (* pos.start.column in (c + d for d in tol_s), c = location.start.column *)
   tol_e : list Z;          (* same for the end column *)
-  widen : Z * Z            (* SonarResult.match_location on a cst.Tuple: start.column + fst, end.column + snd *)
+  widen : Z * Z;           (* SonarResult.match_location on a cst.Tuple: start.column + fst, end.column + snd *)
+  lfr : lf_rule            (* filter_by_path_includes_or_excludes: how exclusion and inclusion lines combine (C13) *)
 }.
 
 (** result.same_line *)
@@ -71,13 +73,11 @@ Definition match_loc (T : ltab) (c : rclass) (k : node_kind) (p : span) (l : loc
 Definition match_location (T : ltab) (k : node_kind) (p : span) (r : result) : bool :=
   existsb (match_loc T (rcls r) k p) (rlocs r).
 
-(** base_visitor.match_line and filter_by_path_includes_or_excludes (local copy; the line filter proper is LineFilter.v) *)
-Definition match_line (p : span) (line : Z) : bool := (pline (sstart p) =? line) && (pline (send p) =? line).
-Definition line_filter (excl incl : list Z) (p : span) : bool :=
-  match excl with
-  | _ :: _ => negb (existsb (match_line p) excl)
-  | [] => match incl with _ :: _ => existsb (match_line p) incl | [] => true end
-  end.
+(** base_visitor.filter_by_path_includes_or_excludes: the line filter of Model/LineFilter.v (C13) on the node position *)
+Definition pos_of_span (p : span) : LineFilter.pos :=
+  ((pline (sstart p), pcol (sstart p)), (pline (send p), pcol (send p))).
+Definition line_filter (T : ltab) (excl incl : list Z) (p : span) : bool :=
+  LineFilter.filter_by_path_includes_or_excludes (lfr T) excl incl (pos_of_span p).
 
 (** UtilsMixin.results_for_node: `[r for r in self.results if r.match_location(pos, node)] if self.results else []` *)
 Definition results_for_node (T : ltab) (results : option (list result)) (n : node) : list result :=
@@ -111,7 +111,7 @@ Definition filter_by_result (T : ltab) (o : filter_override) (results : option (
 
 (** UtilsMixin.node_is_selected *)
 Definition node_is_selected (T : ltab) (o : filter_override) (results : option (list result)) (excl incl : list Z) (n : node) : bool :=
-  filter_by_result T o results n && line_filter excl incl (nspan n).
+  filter_by_result T o results n && line_filter T excl incl (nspan n).
 
 (** FileContext.get_findings_for_location *)
 Definition in_line_range (line : Z) (l : loc) : bool := (pline (lstart l) <=? line) && (line <=? pline (lend l)).
